@@ -16,7 +16,7 @@ INFO = {
                "whitespace-delimited noise is delimited the same way values are; a turn of the read loop that ends in a "
                "recoverable error moves neither the per-file nor the run-wide counter (so &index of the values does "
                "not depend on the noise), and next_json_value has consumed at least one byte before any return while "
-               "input remains (the retry loop advances).",
+               "input remains (the retry loop advances). Each of the 235 byte values that can neither start a value nor are blank costs exactly one byte of input; both sinks write every row before process() returns; every malformed-input error without an io::Error is recoverable.",
     "not_decided": "That the values around the noise come out as the same values (C01's run-time remainder) and the "
                    "number of error lines per region.",
     "trusted": ["sa/tables/rfc8259.toml"],
